@@ -7,6 +7,8 @@
   which the number printer's model is validated against by the stream, not proved.
 -/
 import Sidetree.Jcs
+import Sidetree.Lemmas.Normalize
+import Sidetree.Lemmas.Utf16
 
 namespace Sidetree.RT
 open Sidetree Sidetree.Parse Sidetree.Json
@@ -403,6 +405,94 @@ theorem parse_jcs (v : Json) (text : List Char) (h : numFree v = true) (hj : v.j
     simp only [hn, Option.map_some, Option.some.injEq] at hj
     subst hj
     exact parse_print v' (normalize_numFree v v' h hn)
+
+
+/-! ### the normal form is a fixed point -/
+
+/-- every member value is its own normal form -/
+def FixedMembers (l : List (String × Json)) : Prop := ∀ kv ∈ l, normalize kv.2 = some kv.2
+
+theorem normalizeMembers_fixed : ∀ (l : List (String × Json)), FixedMembers l → normalizeMembers l = some l
+  | [], _ => rfl
+  | (k, x) :: rest, h => by
+    have hx := h (k, x) (List.mem_cons_self ..)
+    have ih := normalizeMembers_fixed rest (fun kv hkv => h kv (List.mem_cons_of_mem _ hkv))
+    simp only at hx
+    simp [normalizeMembers, hx, ih]
+
+theorem normalizeList_fixed : ∀ (l : List Json), (∀ x ∈ l, normalize x = some x) → normalizeList l = some l
+  | [], _ => rfl
+  | x :: rest, h => by
+    have hx := h x (List.mem_cons_self ..)
+    have ih := normalizeList_fixed rest (fun y hy => h y (List.mem_cons_of_mem _ hy))
+    simp [normalizeList, hx, ih]
+
+mutual
+theorem normalize_fixed : ∀ (v v' : Json), numFree v = true → normalize v = some v' → normalize v' = some v'
+  | .null, v', _, h => by simp [normalize] at h; subst h; rfl
+  | .bool b, v', _, h => by simp [normalize] at h; subst h; rfl
+  | .str s, v', _, h => by simp [normalize] at h; subst h; rfl
+  | .num _, _, h, _ => by simp [numFree] at h
+  | .arr xs, v', hn, h => by
+    simp only [normalize, Option.map_eq_some_iff] at h
+    obtain ⟨xs', hx, rfl⟩ := h
+    have := normalizeList_fixed_of xs xs' (by simpa [numFree] using hn) hx
+    simp [normalize, normalizeList_fixed xs' this]
+  | .obj kvs, v', hn, h => by
+    simp only [normalize] at h
+    cases hm : normalizeMembers kvs with
+    | none => simp [hm] at h
+    | some kvs' =>
+      simp only [hm] at h
+      by_cases hnd : namesNodup kvs' = true
+      · simp only [hnd, if_true, Option.some.injEq] at h
+        subst h
+        have hfix := normalizeMembers_fixed_of kvs kvs' (by simpa [numFree] using hn) hm
+        have hperm := sortMembers_perm kvs'
+        have hfix' : FixedMembers (sortMembers kvs') := fun kv hkv => hfix kv (hperm.mem_iff.mp hkv)
+        have hnd' : namesNodup (sortMembers kvs') = true :=
+          (namesNodup_iff _).mpr ((hperm.map _).nodup_iff.mpr ((namesNodup_iff kvs').mp hnd))
+        have hss : sortMembers (sortMembers kvs') = sortMembers kvs' :=
+          sortMembers_eq_of_perm _ _ hperm ((hperm.map _).nodup_iff.mpr ((namesNodup_iff kvs').mp hnd))
+        simp [normalize, normalizeMembers_fixed _ hfix', hnd', hss]
+      · simp [hnd] at h
+theorem normalizeList_fixed_of : ∀ (l l' : List Json), numFreeList l = true → normalizeList l = some l' →
+    ∀ x ∈ l', normalize x = some x
+  | [], l', _, h => by simp [normalizeList] at h; subst h; intro x hx; cases hx
+  | x :: xs, l', hn, h => by
+    simp only [numFreeList, Bool.and_eq_true] at hn
+    simp only [normalizeList] at h
+    cases hx : normalize x with
+    | none => simp [hx] at h
+    | some x' =>
+      cases hxs : normalizeList xs with
+      | none => simp [hx, hxs] at h
+      | some xs' =>
+        simp only [hx, hxs, Option.some.injEq] at h
+        subst h
+        intro y hy
+        rcases List.mem_cons.mp hy with e | hm
+        · subst e; exact normalize_fixed x y hn.1 hx
+        · exact normalizeList_fixed_of xs xs' hn.2 hxs y hm
+theorem normalizeMembers_fixed_of : ∀ (l l' : List (String × Json)), numFreeMembers l = true → normalizeMembers l = some l' →
+    FixedMembers l'
+  | [], l', _, h => by simp [normalizeMembers] at h; subst h; intro x hx; cases hx
+  | (k, x) :: xs, l', hn, h => by
+    simp only [numFreeMembers, Bool.and_eq_true] at hn
+    simp only [normalizeMembers] at h
+    cases hx : normalize x with
+    | none => simp [hx] at h
+    | some x' =>
+      cases hxs : normalizeMembers xs with
+      | none => simp [hx, hxs] at h
+      | some xs' =>
+        simp only [hx, hxs, Option.some.injEq] at h
+        subst h
+        intro y hy
+        rcases List.mem_cons.mp hy with e | hm
+        · subst e; exact normalize_fixed x x' hn.1 hx
+        · exact normalizeMembers_fixed_of xs xs' hn.2 hxs y hm
+end
 
 
 end Sidetree.RT
